@@ -135,6 +135,17 @@ class pristine_state:
                 else:
                     live.clear()
                     live.update(copy.deepcopy(pristine))
+        # rebindable module-level / class-level slots: remember what the history
+        # has bound there, show the reference the import-time value
+        self.saved_slots = []
+        for owner, name, value in _SCALARS:
+            try:
+                cur = owner.__dict__.get(name, _SCALARS)
+                if cur is not value:
+                    self.saved_slots.append((owner, name, cur))
+                    setattr(owner, name, value)
+            except Exception:
+                pass
         return self
 
     def __exit__(self, *exc):
@@ -144,6 +155,14 @@ class pristine_state:
             else:
                 live.clear()
                 live.update(saved)
+        for owner, name, cur in self.saved_slots:
+            try:
+                if cur is _SCALARS:
+                    delattr(owner, name)
+                else:
+                    setattr(owner, name, cur)
+            except Exception:
+                pass
         return False
 
 
